@@ -10,7 +10,7 @@ HARNESS = os.path.join(VERIF, "harness")
 DRIVER = os.path.join(VERIF, "driver")
 WORK = os.path.join(VERIF, "work")
 REPLAYS = os.path.join(VERIF, "replays")
-EVIDENCE = os.path.join(VERIF, "evidence")
+EVIDENCE = os.environ.get("VERIF_EVIDENCE_DIR") or os.path.join(VERIF, "evidence")   # seed runs (bin/seed_run, bin/selftest) write elsewhere: the committed evidence describes the unchanged tree
 
 FORBIDDEN = [r"\bAdmitted\b", r"\badmit\b", r"\bAxiom\b", r"\bAxioms\b", r"\bParameter\b", r"\bParameters\b",
              r"\bConjecture\b", r"\bAdmit Obligations\b", r"Unset Guard Checking", r"bypass_check",
